@@ -383,3 +383,33 @@ package iterator
 //@   ensures result1 <==> iter.inner.pos < iter.inner.n
 //@   ensures result1 ==> result0 != nil && fresh(result0) && iter.curr == result0.(*runsInnerIterator[T]) && iter.curr.parent == iter && iter.curr.prev == iter.inner.seq[iter.inner.pos]
 //@   ensures !result1 ==> result0 == nil && iter.curr == nil
+
+// ---- Equal: true iff all iterators yield the same remaining sequence (distinct iterator objects) ----
+// d = number of complete rounds so far (every iterator has handed out d items, all equal position by
+// position); a false result comes with a witness (wk, wt): iterator wk differs from iterator 0 at item
+// wt of the remaining sequences, or exactly one of the two ends there.
+
+//@ pred eqRep(iters) = (forall k int {iters[k]} :: 0 <= k && k < len(iters) ==> iters[k] != nil && itInv(iters[k]))
+//@   && (forall k1 int, k2 int {iters[k1], iters[k2]} :: 0 <= k1 && k1 < k2 && k2 < len(iters) ==> iters[k1] != iters[k2])
+//@ pred eqPrefix(iters, d) = forall k int, t int {iters[k].seq[old(iters[k].pos) + t]} :: 0 <= k && k < len(iters) && 0 <= t && t < d ==> iters[k].seq[old(iters[k].pos) + t] == iters[0].seq[old(iters[0].pos) + t]
+
+//@ func Equal
+//@   props C07
+//@   requires eqRep(iters)
+//@   modifies all(iters[0].pos), all(iters[0].pulls)
+//@   ghostinit d := 0
+//@   ghostinit wk := 0
+//@   ghostinit wt := 0
+//@   before call Next[0]: ghost d := iters[0].pos - old(iters[0].pos)
+//@   after call Next[1]: ghost wk := i
+//@   after call Next[1]: ghost wt := d
+//@   loop 0: invariant eqRep(iters) && len(iters) > 0 && iters[0].pos >= old(iters[0].pos)
+//@   loop 0: invariant forall k int {iters[k]} :: 0 <= k && k < len(iters) ==> iters[k].pos == old(iters[k].pos) + (iters[0].pos - old(iters[0].pos))
+//@   loop 0: invariant eqPrefix(iters, iters[0].pos - old(iters[0].pos))
+//@   loop 1: invariant eqRep(iters) && 1 <= i && i <= len(iters) && d >= 0 && eqPrefix(iters, d)
+//@   loop 1: invariant forall k int {iters[k]} :: i <= k && k < len(iters) ==> iters[k].pos == old(iters[k].pos) + d
+//@   loop 1: invariant forall k int {iters[k]} :: 0 <= k && k < i ==> (ok ==> iters[k].pos == old(iters[k].pos) + d + 1 && iters[k].seq[old(iters[k].pos) + d] == item) && (!ok ==> iters[k].pos == old(iters[k].pos) + d && iters[k].pos == iters[k].n)
+//@   ensures len(iters) == 0 ==> result
+//@   ensures result && len(iters) > 0 ==> (forall k int {iters[k]} :: 0 <= k && k < len(iters) ==> iters[k].n - old(iters[k].pos) == iters[0].n - old(iters[0].pos)) && eqPrefix(iters, iters[0].n - old(iters[0].pos))
+//@   ensures !result ==> 1 <= wk && wk < len(iters) && 0 <= wt && wt <= iters[0].n - old(iters[0].pos) && wt <= iters[wk].n - old(iters[wk].pos)
+//@       && ((wt < iters[0].n - old(iters[0].pos)) != (wt < iters[wk].n - old(iters[wk].pos)) || (wt < iters[0].n - old(iters[0].pos) && iters[0].seq[old(iters[0].pos) + wt] != iters[wk].seq[old(iters[wk].pos) + wt]))
